@@ -11,6 +11,8 @@ VARIABLES l, bad
 OkLine(r) == IF r.ev = "print" THEN r.panics = 0 /\ r.reparse_ok /\ r.agree /\ r.equal_kept /\ r.rt_equal
              ELSE IF r.ev = "reject" THEN r.panics = 0 /\ ~r.accepted
              \* "longval": values of r.len characters differing in the last one: a leaf holds for the equal value only, its negation for the other only
+             \* "bigkey": an attribute key too large for the 16-bit length fields of its format: refused (encrypt_err), or it survives marshal/unmarshal
+             ELSE IF r.ev = "bigkey" THEN r.panics = 0 /\ (r.encrypt_err \/ r.rt_equal)
              ELSE IF r.ev = "longval" THEN r.panics = 0 /\ r.sat_same /\ ~r.sat_other /\ ~r.neg_same /\ r.neg_other
              ELSE /\ r.panics = 0 /\ r.policy_ok /\ r.satisfies
                   /\ (r.encrypt_err \/ (r.could_decrypt /\ r.decrypt_ok))
